@@ -62,6 +62,8 @@ def judge(ctx, t, v, spelling=None):
     except Exception as e:
         return ctx.violation('C10|read-back-raises|%s|%s' % (t[0], k), '%r from %r' % (e, opt), case)
     ctx.count('read_back')
+    if bv == v and not (back == obj):
+        return ctx.violation('C10|read-back-not-equal-by-own-equality|%s|%s' % (t[0], k), 'wrote %r read %r' % (obj.value, back.value), case)
     if bv != v:
         bk = kind_of(t, bv)
         sig = 'C10|kind-confusion|%s|%s-read-as-%s' % (t[0], k, bk) if bk != k else 'C10|read-back-differs|%s|%s' % (t[0], k)
